@@ -234,12 +234,21 @@ def seeded(sel, tier) -> int:
                 print(f"{n}: patch failed: {p.stdout} {p.stderr}")
                 missed += 1
                 continue
-            rc, out, err, wall = run_check_on(os.path.join(top, "src"), prop, tier)
-            caught = rc == 1 and f"VIOLATION property={prop}" in out
-            print(f"seeded {n:40s} {prop} {'CAUGHT' if caught else 'MISSED rc=' + str(rc)} {wall:.0f}s", flush=True)
-            if not caught:
-                missed += 1
-                print(out[-1200:], err[-800:])
+            props = [prop] if meta.get("expect") != "pass" else meta.get("check_all", [prop])
+            for prop in props:
+                rc, out, err, wall = run_check_on(os.path.join(top, "src"), prop, tier)
+                if meta.get("expect") == "pass":
+                    quiet = rc == 0 and "VIOLATION" not in out
+                    print(f"seeded {n:40s} {prop} {'QUIET (ok)' if quiet else 'FALSE ALARM rc=' + str(rc)} {wall:.0f}s", flush=True)
+                    if not quiet:
+                        missed += 1
+                        print(out[-1500:], err[-800:])
+                    continue
+                caught = rc == 1 and f"VIOLATION property={prop}" in out
+                print(f"seeded {n:40s} {prop} {'CAUGHT' if caught else 'MISSED rc=' + str(rc)} {wall:.0f}s", flush=True)
+                if not caught:
+                    missed += 1
+                    print(out[-1200:], err[-800:])
         finally:
             shutil.rmtree(top, ignore_errors=True)
     print(f"seeded: {len(names) - missed}/{len(names)} caught")
